@@ -197,6 +197,13 @@ its history (checked by replaying both histories with either fix alone).
 | C07-5 / C07-6 | Stop of systems whose Start failed half-way, of cluster members (seed and joining), with stop timeouts shorter than the work | modes no-port / port-in-use / cluster-seed / cluster-joining in the remoting unit, own deadline around Stop (this found KF-C07-4) |
 | C08-7 | the moment the mailbox is re-opened relative to the new life's OnLaunch | the "suspended until the decision" clause is shared by C08 and C09; the seed is caught by C09 (`seeded/CROSS.tsv`), C08's own clauses do not state it |
 | C10-6 | FindActor on the path of a pending Ask (the registry holds futures under the same keys as actors) | `hold` lookups of the senders of pending Asks from every goroutine |
+| C16-5 | vectors with more ids than the implementation's own thresholds (capacity hint and wire limit of 65535 entries) | unit `large`: the same laws on vectors of 1-65535 generated ids, unions on both sides of the threshold |
+| C12-5 | state carried between two decodes (pooled readers keep a sticky error) | a damaged copy of the encoding is decoded first, through the same entry points and a pooled reader |
+| C19-6 / C19-7 | a subscriber that terminates as a zombie; a successor under the same name that subscribes inside the predecessor's clean-up (a window of two adjacent statements) | unit `handover`: the termination / restart chain is parked at a drawn statement boundary (window points inserted into a copy of killed_handler.go at check time) while the name is spawned again and others subscribe / publish |
+| C11-6 | a message the receiver cannot decode among deliverable ones on a healthy link | every k-th Tell is rejected by the receiving side's reader; the others must arrive, in order |
+| C14-7 | the retry budget of a peer across two outages | second outage after a survived first one (own unit `outages`) |
+| C15-4 | an encode failure before built-in remote operations (pooled writers keep a sticky error) | `badtell` operation: a burst of unencodable messages to the other system, in both runs |
+| C18-5 | a configured gossip rate limit | regime S, one case in five: 1-3 messages per second, burst 1-2, on every node |
 
 ### 9.5 Known findings (genuine, not repaired) and why they are not small
 
